@@ -2176,15 +2176,24 @@ def preprocess_file(
 
     def expand_func_macro(def_name: str, def_value: tuple[str, str]):
         def_args, sub = def_value
-        def_args = def_args.split(",")
+        def_args = [arg.strip() for arg in def_args.split(",")]
         regex = re.compile(rf"\b{def_name}\s*\({','.join(['(.*)']*len(def_args))}\)")
 
-        # Backslashes in the macro body are literal text, not regex escapes
-        sub = sub.replace("\\", "\\\\")
-        for i, arg in enumerate(def_args, start=1):
-            sub = re.sub(rf"\b({arg.strip()})\b", rf"\\{i}", sub)
+        # Split the body into literal text (even indices) and references to the
+        # macro arguments (odd indices); the body is never parsed as a template
+        arg_names = [re.escape(arg) for arg in def_args if arg]
+        if arg_names:
+            pieces = re.split(rf"\b({'|'.join(arg_names)})\b", sub)
+        else:
+            pieces = [sub]
 
-        return regex, sub
+        def replace(match):
+            return "".join(
+                match.group(def_args.index(piece) + 1) if i % 2 else piece
+                for i, piece in enumerate(pieces)
+            )
+
+        return regex, replace
 
     def append_multiline_macro(def_value: str | tuple, line: str):
         if isinstance(def_value, tuple):
